@@ -30,9 +30,12 @@
      - every other byte is kept: physical lines that are not named in the log
        are copied verbatim, including their terminator or the missing
        terminator of the last line;
-     - an inserted line is a line of its own: inserting below a line that has
-       no terminator (the last line of a file without final newline) would
-       glue the two together, this is NOT consistent. *)
+     - an inserted line is a line of its own: when the FIRST line is inserted
+       below a physical line whose current text is non-empty and has no
+       terminator (the last line of a file without final newline), the missing
+       "\n" is added to that text; this newline is part of the logged insertion.
+       (Gluing the inserted line to the text is NOT consistent.)  Sorting never
+       puts a piece without terminator in front of another piece. *)
 From PV Require Import Lib.Bytes.
 Open Scope N_scope.
 
@@ -87,11 +90,22 @@ Fixpoint replace_each (from to s : str) : list str :=
      | c :: s' => map (cons c) (replace_each from to s')
      end.
 
+Definition ends_nl (s : str) : bool :=
+  match rev s with c :: _ => c =? 10 | [] => false end.
+
+Definition is_nil {A} (l : list A) : bool := match l with [] => true | _ => false end.
+
+(* the text of the line directly above the first line inserted below it gets its
+   missing terminator *)
+Definition terminate_for_insert (b : block) : str :=
+  if is_nil (b_below b) && negb (is_nil (b_text b)) && negb (ends_nl (b_text b))
+  then b_text b ++ nl else b_text b.
+
 Definition act_block (a : action) (b : block) : list block :=
   match a with
   | ARepl f t => map (fun x => Block (b_above b) x (b_below b)) (replace_each f t (b_text b))
   | AAbove t => [Block (b_above b ++ [t ++ nl]) (b_text b) (b_below b)]
-  | ABelow t => [Block (b_above b) (b_text b) (b_below b ++ [t ++ nl])]
+  | ABelow t => [Block (b_above b) (terminate_for_insert b) (b_below b ++ [t ++ nl])]
   | ADelete => [Block (b_above b) [] (b_below b)]
   | ASort => [b]
   | AChmod => [b]
@@ -130,17 +144,6 @@ Fixpoint run_log (seen : list entry) (log : list entry) (st : list block) : list
     else applied
   end.
 
-Definition ends_nl (s : str) : bool :=
-  match rev s with c :: _ => c =? 10 | [] => false end.
-
-(* an inserted line must not be glued to a text without terminator *)
-Definition block_ok (b : block) : bool :=
-  match b_below b, b_text b with
-  | [], _ => true
-  | _, [] => true
-  | _, t => ends_nl t
-  end.
-
 Definition flat_block (b : block) : str := concat (b_above b) ++ b_text b ++ concat (b_below b).
 Definition flat_blocks (st : list block) : str := concat (map flat_block st).
 
@@ -151,19 +154,17 @@ Fixpoint pick_each {A} (l : list A) : list (A * list A) :=
   | x :: l' => (x, l') :: map (fun p => (fst p, x :: snd p)) (pick_each l')
   end.
 
-Definition is_nil {A} (l : list A) : bool := match l with [] => true | _ => false end.
-
-(* [strict]: a piece without terminator can only be the last one *)
-Fixpoint perm_concat (strict : bool) (n : nat) (pieces : list str) (s : str) : bool :=
+(* a piece without terminator can only be the last one *)
+Fixpoint perm_concat (n : nat) (pieces : list str) (s : str) : bool :=
   match pieces with
   | [] => is_nil s
   | _ =>
     match n with
     | O => false
     | S n' =>
-      existsb (fun p => (negb strict || ends_nl (fst p) || is_nil (snd p)) &&
+      existsb (fun p => (ends_nl (fst p) || is_nil (snd p)) &&
                         match strip_prefix (fst p) s with
-                        | Some r => perm_concat strict n' (snd p) r
+                        | Some r => perm_concat n' (snd p) r
                         | None => false
                         end) (pick_each pieces)
     end
@@ -172,25 +173,20 @@ Fixpoint perm_concat (strict : bool) (n : nat) (pieces : list str) (s : str) : b
 Definition has_sort (log : list entry) : bool :=
   existsb (fun e => match snd e with ASort => true | _ => false end) log.
 
-Definition final_ok (strict sorted : bool) (new : str) (st : list block) : bool :=
-  (negb strict || forallb block_ok st) &&
-  (if sorted
-   then let ps := filter (fun p => negb (is_nil p)) (map flat_block st) in
-        perm_concat strict (length ps) ps new
-   else str_eqb (flat_blocks st) new).
+Definition final_ok (sorted : bool) (new : str) (st : list block) : bool :=
+  if sorted
+  then let ps := filter (fun p => negb (is_nil p)) (map flat_block st) in
+       perm_concat (length ps) ps new
+  else str_eqb (flat_blocks st) new.
 
-(* [consistent_gen false] is the same without the two "a line is a line" rules
-   (used only to classify a failure, never to accept one) *)
-Definition consistent_gen (strict : bool) (old : str) (log : list entry) (new : str) : bool :=
-  existsb (final_ok strict (has_sort log) new) (run_log [] log (init_blocks old)).
-
-Definition consistent := consistent_gen true.
+Definition consistent (old : str) (log : list entry) (new : str) : bool :=
+  existsb (final_ok (has_sort log) new) (run_log [] log (init_blocks old)).
 
 (* The same with a bounded number of "save and load again" points: the file is
    written and read again between two log entries; the later entries then use
-   the line numbers of the intermediate file.  [consistent_hist true 0] = [consistent]. *)
-Fixpoint consistent_hist (strict : bool) (reloads : nat) (old : str) (log : list entry) (new : str) : bool :=
-  consistent_gen strict old log new ||
+   the line numbers of the intermediate file.  [consistent_hist 0] = [consistent]. *)
+Fixpoint consistent_hist (reloads : nat) (old : str) (log : list entry) (new : str) : bool :=
+  consistent old log new ||
   match reloads with
   | O => false
   | S r =>
@@ -199,7 +195,7 @@ Fixpoint consistent_hist (strict : bool) (reloads : nat) (old : str) (log : list
       let l1 := firstn k log in
       let l2 := skipn k log in
       negb (has_sort l1) &&
-      existsb (fun st => (negb strict || forallb block_ok st) && consistent_hist strict r (flat_blocks st) l2 new)
+      existsb (fun st => consistent_hist r (flat_blocks st) l2 new)
               (run_log [] l1 (init_blocks old)))
       (seq 1 (length log - 1))
   end.
